@@ -791,6 +791,8 @@ struct Digit {
                         b_int <<= (positive_exp - m_shift);
                     } else {
                         b_int >>= (m_shift - positive_exp);
+                        // Nonzero bits shifted out: the value is above any halfway point of the kept digits.
+                        round_up = ((m_shift - positive_exp) > first_shift);
                     }
 
                     if (drop != 0) {
@@ -978,7 +980,14 @@ struct Digit {
             --index;
             index += SizeT(number_length - precision);
 
-            roundStringNumber(stream, index, power_increased, round_up);
+            bool above_half = round_up;
+
+            // Any nonzero digit below the one being rounded on means the value is above the halfway point.
+            for (SizeT below = started_at; (below < index) && !above_half; ++below) {
+                above_half = (storage[below] != DigitUtils::DigitChar::Zero);
+            }
+
+            roundStringNumber(stream, index, power_increased, above_half);
 
             if (is_positive_exp) {
                 const SizeT diff =
